@@ -1302,10 +1302,10 @@ MANIFEST = {
     "design_ref": "DESIGN.md 4/C15",
 }
 FINDINGS = [
-    {"status": "fixed", "key": "replay:crash:RecursionError:two-clashing-pairs", "commit": "fixes/C15-4.patch",
+    {"status": "fixed", "key": "replay:crash:RecursionError:two-clashing-pairs", "commit": "18ad491",
      "what": "logic.resolution(~a | b, ~b | a) recursed forever: the clauses were swapped and searched again when the positive literal "
              "was in the second clause"},
-    {"status": "fixed", "key": "proofrec:not-provable:repeated-literal-clause", "commit": "fixes/C15-5.patch",
+    {"status": "fixed", "key": "proofrec:not-provable:repeated-literal-clause", "commit": "2aba592",
      "what": "proofrec.solve_cnf failed on tautologies such as (a & a) --> a: logic.resolution removed only one copy of the resolved "
              "literal, so the replay of solve_cnf's trace on Tseitin clauses with a repeated literal did not end in false"},
     {"status": "fixed", "key": "nontermination:duplicate-literal-in-clause", "commit": "5b840a5",
